@@ -558,7 +558,7 @@ class StmtMixin:
                 continue
             old = st.H(key)
             new = fresh('H_' + '_'.join(key), key_sort(key))
-            notmod = [r != m.z for m in modset if not isinstance(m, SeqV)]
+            notmod = [z3.Not(self.in_mod(r, m)) for m in modset if key in self.keys_of(m)]
             st.assume(z3.ForAll([r], z3.Implies(z3.And(z3.Select(entry_alloc, r), *notmod), z3.Select(new, r) == z3.Select(self.entry.H(key) if self.entry is not None else old, r)),
                                 patterns=[z3.Select(new, r)]))
             st.setH(key, new)
